@@ -7,6 +7,12 @@ func init() {
 			la := NewLockAnalysis(w)
 			r.Rule("R15.15", 10, "'circular', 'lifetime conflict' and 'not found' are reported at Build for every dependency the invoker resolves: the field walkers of the analyzer and of the invoker skip the same fields (an unseen cycle is a stack overflow at resolution, not an error)")
 			r.Try(func() { ruleFieldFilters(w, r, "R15.15") })
+			r.Rule("R15.20", 5, "no operation panics with an index out of range inside reflect: In/Out/Field positions that are loop indices are bounded by the matching NumIn/NumOut/NumField")
+			r.Try(func() { ruleReflectIndexBounds(w, r, "R15.20") })
+			r.Rule("R15.19", 1, "a constructor's error is the constructor's own: the error result is tested for nil on the reflect.Value before it is converted (a typed nil is not an error)")
+			r.Try(func() { ruleErrorResultNilCheckedOnValue(w, r, "R15.19") })
+			r.Rule("R15.18", 1, "no constructor panic escapes: the invoker's recover handler never panics again")
+			r.Try(func() { ruleRecoverNeverRepanics(w, r, "R15.18") })
 			r.Rule("R15.17", 1, "no operation panics on an unhashable service instance: no map is keyed by an interface type that holds instances")
 			r.Try(func() { ruleNoInstanceMapKeys(w, r, "R15.17") })
 			r.Rule("R15.16", 2, "a Build that fails after construction started leaves no partial state: it closes the partial provider on every such exit")
